@@ -205,3 +205,45 @@ func dedup(in []string) []string {
 func fenOf(b *board.Board) string {
 	return fen.Encode(b.Position(), b.Turn(), b.NoProgress(), b.FullMoves())
 }
+
+// wellFormed: both kings present, castling rights only with king and rook at home, an e.p.
+// target only behind a pawn that can just have made a double step. (The rules model follows
+// games from such positions only; the engine may accept more.)
+func wellFormed(p *oracle.Pos) bool {
+	if p.KingSq(true) < 0 || p.KingSq(false) < 0 {
+		return false
+	}
+	nk := 0
+	for _, pc := range p.Sq {
+		if pc == oracle.King || pc == -oracle.King {
+			nk++
+		}
+	}
+	if nk != 2 {
+		return false
+	}
+	if (p.WK && (p.Sq[oracle.E1] != oracle.King || p.Sq[oracle.H1] != oracle.Rook)) ||
+		(p.WQ && (p.Sq[oracle.E1] != oracle.King || p.Sq[oracle.A1] != oracle.Rook)) ||
+		(p.BK && (p.Sq[oracle.E8] != -oracle.King || p.Sq[oracle.H8] != -oracle.Rook)) ||
+		(p.BQ && (p.Sq[oracle.E8] != -oracle.King || p.Sq[oracle.A8] != -oracle.Rook)) {
+		return false
+	}
+	if p.EP >= 0 {
+		f, r := oracle.File(int(p.EP)), oracle.Rank(int(p.EP))
+		if p.White { // black has just played a double step: target on rank 6, pawn on rank 5
+			if r != 5 || p.Sq[oracle.Sq(f, 4)] != -oracle.Pawn || p.Sq[oracle.Sq(f, 5)] != 0 || p.Sq[oracle.Sq(f, 6)] != 0 {
+				return false
+			}
+		} else if r != 2 || p.Sq[oracle.Sq(f, 3)] != oracle.Pawn || p.Sq[oracle.Sq(f, 2)] != 0 || p.Sq[oracle.Sq(f, 1)] != 0 {
+			return false
+		}
+	}
+	for f := 0; f < 8; f++ {
+		for _, r := range []int{0, 7} {
+			if pc := p.Sq[oracle.Sq(f, r)]; pc == oracle.Pawn || pc == -oracle.Pawn {
+				return false
+			}
+		}
+	}
+	return true
+}
